@@ -511,6 +511,15 @@ def run(m, tier):
     for f in r6.findings:
         f.rule = "C06.R6"
     results = [r1_terminators(m, ctx), r2_boundary(m, ctx), r3_foreign_raises(m, ctx), r4_codec(m), r5_protocol(m, ctx, blocks), r6]
+    r9 = C09.r1_scope_pairing(m, blocks)
+    r9.rule = "C06.R9"
+    r9.title = "scope clean-up on the failure path is well ordered (leave, then remove), so it cannot raise SymbolTableError over the syntax error (shared with C09.R1)"
+    for f in r9.findings:
+        f.rule = "C06.R9"
+    results.append(r9)
+    from rules import order_rules, format_rules
+    results.append(order_rules.index_guard_rule(m, "C06.R7"))
+    results.append(format_rules.format_arity_rule(m, "C06.R8"))
     expl = ("Decides the structural clauses of C06: (R1) who-may-call -- no call path from the parse/print/read entry points to a "
             "process-terminating call (resolved call graph incl. grammar dispatch); (R2) every fparser exception class raised as a "
             "signal is converted at Program.__new__; (R3) every explicit raise of a non-convertible class is discharged by a guard "
